@@ -98,7 +98,7 @@ def gen_value(rng):
         return b""
     if c < 0.24:
         return rng.choice([b"\"", b"a", b" ", b"*", b"=", b"\"\"", b"\"a", b"a\"", b"\" ", b"\"a b", b"a b\""])
-    n = rng.choice([1, 1, 2, 2, 3, 4])
+    n = rng.choice([0, 1, 1, 1, 2, 2, 2, 3, 4])    # 0: the empty value, quoted below half of the time (`""`: the length-2 edge of quote stripping)
     sep = rng.choice([b" ", b" ", b" ", b"  "])
     v = sep.join(rng.choice(TOKS) for _ in range(n))
     if rng.random() < 0.1:
